@@ -16,6 +16,7 @@ type MusCase struct {
 	Cnf    [][]int `json:"cnf"`
 	Reuse  bool    `json:"reuse,omitempty"` // all methods are called one after the other on the SAME Problem value
 	Big    bool    `json:"big,omitempty"`   // threshold 3-SAT with a real search: no MUS counting, no MUSMaxSat
+	Pre    [][]int `json:"pre,omitempty"`   // with Reuse: a certificate checked (and usually rejected) on the Problem before the extractions
 }
 
 // genMusBig: threshold 3-SAT over 8..12 variables: the solver really searches and learns
@@ -23,7 +24,11 @@ type MusCase struct {
 func genMusBig(r *Rng, tier string) MusCase {
 	n := r.Range(8, 12)
 	m := int(float64(n)*4.6) + r.Range(0, n)
-	return MusCase{NbVars: n, Cnf: genKSat(r, n, m, 3), Reuse: true, Big: true}
+	c := MusCase{NbVars: n, Cnf: genKSat(r, n, m, 3), Reuse: true, Big: true}
+	if r.Bool() {
+		c.Pre = genKSat(r, n, r.Range(1, 3), r.Range(1, 2))
+	}
+	return c
 }
 
 func plainDimacs(n int, cnf [][]int) string {
@@ -72,7 +77,11 @@ func genMusCase(r *Rng, tier string) MusCase {
 	if len(cnf) > 14 {
 		cnf = cnf[:14]
 	}
-	return MusCase{NbVars: n, Cnf: shuffleCnf(r, cnf), Reuse: r.Bool()}
+	c := MusCase{NbVars: n, Cnf: shuffleCnf(r, cnf), Reuse: r.Bool()}
+	if c.Reuse && r.Bool() {
+		c.Pre = genKSat(r, n, r.Range(1, 3), r.Range(1, 2))
+	}
+	return c
 }
 
 // countMUSes counts the minimal unsatisfiable sub-multisets (as index sets) of cnf by brute
@@ -134,7 +143,7 @@ func countMUSes(n int, cnf [][]int, limit int) int {
 func init() {
 	register(&Prop{
 		ID: "C07",
-		Rule: "CNF problems over 1..6 variables with up to 14 clauses: trivially conflicting units, two disjoint cores, repeated clauses, satisfiable formulas, over-constrained formulas with overlapping cores; each handed (through explain.ParseCNF) to MUS, MUSDeletion, MUSInsertion and MUSMaxSat. The result is judged by the verified GS.subMultiset and GS.isMUSB; the receiver is compared before/after. Non-trivial = unsatisfiable input that is not already minimal; distinct = distinct clause list.",
+		Rule: "CNF problems over 1..6 variables with up to 14 clauses: trivially conflicting units, two disjoint cores, repeated clauses, satisfiable formulas, over-constrained formulas with overlapping cores; each handed (through explain.ParseCNF) to MUS, MUSDeletion, MUSInsertion and MUSMaxSat, on fresh Problem values or one after the other on the same value (then in half of the cases after a usually wrong certificate was checked on it with Problem.Unsat). The result is judged by the verified GS.subMultiset and GS.isMUSB; the receiver is compared before/after. Non-trivial = unsatisfiable input that is not already minimal; distinct = distinct clause list.",
 		Gens: []Gen{
 			{Name: "mus", Weight: 4, Make: func(r *Rng, tier string) interface{} { return genMusCase(r, tier) }},
 			{Name: "mus-3sat-reuse", Weight: 1, Make: func(r *Rng, tier string) interface{} { return genMusBig(r, tier) }},
@@ -207,6 +216,17 @@ func runMusCase(o *Oracle, d json.RawMessage, oc *Outcome) {
 		} else {
 			pb, err = explain.ParseCNF(strings.NewReader(text))
 			shared = pb
+			if err == nil && c.Reuse && len(c.Pre) > 0 {
+				// the caller first checks some certificate on this problem (mostly a wrong one): whatever
+				// the answer, the problem is still his problem afterwards
+				var sb strings.Builder
+				for _, cl := range c.Pre {
+					sb.WriteString(encInts(cl) + " 0\n")
+				}
+				if ok, cerr := pb.Unsat(strings.NewReader(sb.String())); cerr == nil && !ok {
+					oc.Tag("after-rejected-certificate")
+				}
+			}
 		}
 		if err != nil {
 			oc.Fail("spec", "parse-ok", "explain.ParseCNF", "plain DIMACS rejected: %v", err)
